@@ -21,6 +21,7 @@ func runC11(c *Ctx) {
 	fsPublicationRules(c, true, false)
 	c11UnlinkOnlyToSupersede(c)
 	remoteStagingUnique(c, "R6-remote-staging-unique")
+	c11FinalNameKept(c)
 }
 
 // c11UnlinkOnlyToSupersede: the restore command unlinks an existing output database
@@ -154,4 +155,51 @@ func hasUniqueComponent(v ssa.Value, d int) bool {
 		}
 	}
 	return false
+}
+
+// c11FinalNameKept: a function that publishes a file with os.Rename(src, dst) unlinks dst
+// itself only where its own rename has succeeded (a cleanup closure counts from the point
+// where it is created).  Before that, whatever carries the final name is an earlier, durable
+// file that nothing supersedes yet; removing it on a failure path loses it.
+func c11FinalNameKept(c *Ctx) {
+	const rule = "R7-final-name-unlinked-only-after-own-rename"
+	isRm := nameIs("os.Remove", "os.RemoveAll")
+	nr := 0
+	for _, rs := range renameSites(c.P) {
+		if rs.Lifted {
+			continue
+		}
+		fn := rs.Fn
+		nr++
+		var starts []*ssa.BasicBlock
+		for _, e := range nilEdges(fn, rs.Call) {
+			starts = append(starts, e.From.Succs[e.Succ])
+		}
+		after := func(site ssa.Instruction) bool {
+			if site == nil || site.Parent() != fn {
+				return false
+			}
+			for _, s := range starts {
+				if s == site.Block() || s.Dominates(site.Block()) {
+					return true
+				}
+			}
+			return false
+		}
+		for i, g := range withClosures(fn) {
+			for _, k := range callsTo(g, isRm) {
+				a := k.Common().Args
+				if len(a) != 1 || !exprEq(a[0], rs.Dst) || exprEq(a[0], rs.Src) {
+					continue
+				}
+				site := ssa.Instruction(k)
+				if i > 0 {
+					site = liftTo(fn, k)
+				}
+				c.check(after(site), rule, fnName(fn)+": the destination of its own rename is unlinked only after that rename succeeded", c.pos(k),
+					"dominated by the success edge of the rename", "the final name can be unlinked on a path where this function has not published anything under it: an earlier durable file is deleted and nothing supersedes it")
+			}
+		}
+	}
+	c.floor(rule, nr, 5, "rename sites examined")
 }
